@@ -86,7 +86,40 @@ func milF1(in map[string]interface{}) map[string]interface{} {
 func milF2345(in map[string]interface{}) map[string]interface{} {
 	res, ck, ik, ak, aks := outbuf(in, 8), outbuf(in, 16), outbuf(in, 16), outbuf(in, 6), outbuf(in, 6)
 	err := milenage.F2345(exact(in, "opc"), exact(in, "k"), exact(in, "rand"), res, ck, ik, ak, aks)
-	return map[string]interface{}{"err": err != nil, "res": hx(res), "ck": hx(ck), "ik": hx(ik), "ak": hx(ak), "akstar": hx(aks)}
+	out := map[string]interface{}{"err": err != nil, "res": hx(res), "ck": hx(ck), "ik": hx(ik), "ak": hx(ak), "akstar": hx(aks)}
+	// every selection of outputs (nil for the ones not wanted): an output that is asked for is what the full call gives
+	full := [][]byte{res, ck, ik, ak, aks}
+	names := []string{"res", "ck", "ik", "ak", "akstar"}
+	bad := []string{}
+	for mask := 1; mask < 32; mask++ {
+		bufs := make([][]byte, 5)
+		for j := 0; j < 5; j++ {
+			if mask&(1<<j) != 0 {
+				bufs[j] = make([]byte, len(full[j]))
+			}
+		}
+		func() {
+			defer func() {
+				if r := recover(); r != nil {
+					bad = append(bad, fmt.Sprintf("mask %02x: panic %v", mask, r))
+				}
+			}()
+			e2 := milenage.F2345(exact0(in, "opc"), exact0(in, "k"), exact0(in, "rand"), bufs[0], bufs[1], bufs[2], bufs[3], bufs[4])
+			if (e2 != nil) != (err != nil) {
+				bad = append(bad, fmt.Sprintf("mask %02x: error differs", mask))
+				return
+			}
+			for j := 0; j < 5; j++ {
+				if bufs[j] != nil && hx(bufs[j]) != hx(full[j]) {
+					bad = append(bad, fmt.Sprintf("mask %02x: %s", mask, names[j]))
+				}
+			}
+		}()
+	}
+	if len(bad) > 0 && err == nil {
+		out["subset_mismatch"] = bad
+	}
+	return out
 }
 
 func milOPC(in map[string]interface{}) map[string]interface{} {
